@@ -97,6 +97,18 @@ CHECKS = {
             "Exhaustive bounded model check per capability profile; thousands of TLC-generated and directed histories of setters / apply / "
             "refresh / get_capabilities / start_self_clean executed on the real object with TLC judging ids, exactly-once, byte-exact value "
             "encoding, read-back and single breeze mode after every call.", "5 C16"),
+    "C17": ("TLA+ DiscLayout.tla (reply envelope, V3 wrapper, body layout, name/type grammar, probe layout): TLC checks Info o Build = id for "
+            "every appliance type byte, id/port boundary values and both versions (MC_Disc) and the run model Discover.tla; TLC derives the "
+            "identity from the BYTES of every reply delivered to the real Discover.discover()/discover_single() and compares it with the "
+            "returned Device objects, and judges the probe packets (Trace_Disc)",
+            "In-model layout round trip; thousands of simulated replies (every type byte, id and port boundaries, reported-IP variants, V2/V3, "
+            "duplicates, broadcast and single-host) with TLC deciding the expected identity, class and address from the reply bytes.", "5 C17"),
+    "C18": ("TLA+ Discover.tla (arrivals in any order/multiplicity, first datagram of an address decides, one parse task per address, gather): "
+            "TLC checks OnePerGoodHost/AtMostOne/FirstWins over every assignment and interleaving (MC); the finished runs of the model "
+            "(Gen_Disc) are replayed on the real Discover.discover() with 18 concrete bad-reply classes; TLC decides well-formedness of each "
+            "deciding datagram from its bytes and compares the expected device set with the result (Trace_Disc)",
+            "Exhaustive model check of the arrival interleavings; the model's runs executed on the real code with concrete good/bad replies, "
+            "TLC judging the returned device set and that nothing raises.", "5 C18"),
 }
 
 
